@@ -227,6 +227,8 @@ pub struct Mon {
     inconclusive: u64,
     notes: BTreeMap<String, u64>,
     open_findings: HashSet<String>,
+    op_ns: BTreeMap<String, u64>,
+    last_t: Instant,
 }
 
 impl Mon {
@@ -286,12 +288,16 @@ impl Mon {
         if let Err(fl) = res {
             self.record_failure(op, fl, desc());
         }
+        let now = Instant::now();
+        *self.op_ns.entry(op.to_string()).or_insert(0) += (now - self.last_t).as_nanos() as u64;
+        self.last_t = now;
     }
 
     fn record_failure(&mut self, op: &str, fl: Fail, case_desc: String) {
         if self.verbose {
             eprintln!("FAIL idx={} op={} kind={} detail={} case={}", self.idx, op, fl.kind, fl.detail, case_desc);
         }
+        self.note(&format!("failure:{}:{}", op, truncate(&fl.kind, 80)));
         if let Some(id) = fl.finding {
             if self.open_findings.contains(id) {
                 let e = self.known.entry(id.to_string()).or_insert((0, String::new()));
@@ -323,6 +329,7 @@ impl Mon {
             "nontrivial": self.nontrivial,
             "distinct_saturated": self.distinct_saturated,
             "ops": self.ops,
+            "op_ms": self.op_ns.iter().map(|(k, v)| (k.clone(), json!(v / 1_000_000))).collect::<Map<_, _>>(),
             "cells": self.cells,
             "samples": self.samples,
             "violations": self.violations,
@@ -391,6 +398,8 @@ fn new_mon(spec: &Spec, a: &Args) -> Mon {
         inconclusive: 0,
         notes: BTreeMap::new(),
         open_findings: open,
+        op_ns: BTreeMap::new(),
+        last_t: Instant::now(),
     }
 }
 
@@ -473,6 +482,7 @@ fn replay(spec: &Spec, a: &Args, path: &Path) -> ! {
     a2.seed = v["seed"].as_u64().or_else(|| v["seed"].as_i64().map(|x| x as u64)).unwrap_or(1);
     a2.tier = if v["tier"].as_str() == Some("thorough") { Tier::Thorough } else { Tier::Quick };
     a2.verbose = true;
+    crate::gen::FULL_HEX.store(true, std::sync::atomic::Ordering::Relaxed);
     let idx = v["idx"].as_u64().expect("idx");
     let mut m = new_mon(spec, &a2);
     run_one_case(spec, &mut m, idx);
@@ -574,6 +584,7 @@ fn supervisor(spec: &Spec, a: &Args) -> ! {
     let mut cases = 0u64;
     let mut nontrivial = 0u64;
     let mut ops = BTreeMap::new();
+    let mut op_ms = BTreeMap::new();
     let mut cells = BTreeMap::new();
     let mut counters = BTreeMap::new();
     let mut sites = BTreeMap::new();
@@ -604,6 +615,7 @@ fn supervisor(spec: &Spec, a: &Args) -> ! {
             stopped_early += 1;
         }
         merge_count(&mut ops, &v["ops"]);
+        merge_count(&mut op_ms, &v["op_ms"]);
         merge_count(&mut cells, &v["cells"]);
         merge_count(&mut counters, &v["counters"]);
         merge_count(&mut sites, &v["sites"]);
@@ -729,6 +741,7 @@ fn supervisor(spec: &Spec, a: &Args) -> ! {
             "cases": cases,
             "nontrivial_evaluations": nontrivial,
             "per_operation": ops,
+            "per_operation_cpu_ms": op_ms,
             "cells_observed": cells.len(),
             "cells": cells.iter().take(400).map(|(k, v)| (k.clone(), json!(v))).collect::<Map<_, _>>(),
             "internal_sites_hit": sites,
